@@ -148,6 +148,23 @@ def cases(rng):
     add(41, "enum E : 8 { A = 1..5, B = 5..9 }\n")
     add(41, "enum E : 8 { A = 1..5, B = 3..4 }\n")
     add(41, "enum E : 8 { B = 10..20, C = 30..40, A = 15..35 }\n")
+    # exactly one overlapping pair among 3..5 ranges, at every pair of declaration positions (an overlap
+    # check that only compares neighbours in declaration order misses the non-adjacent ones)
+    for _ in range(4):
+        n = rng.randint(3, 5)
+        lo = [20 * k for k in range(n)]
+        rngs = [(x, x + 9) for x in lo]
+        i, j = sorted(rng.sample(range(n), 2))
+        rngs[j] = (rngs[i][0] + 5, rngs[i][0] + 14) if j == i + 1 or True else rngs[j]
+        # keep the moved range clear of every other one
+        for k in range(n):
+            if k not in (i, j):
+                rngs[k] = (100 + 12 * k, 100 + 12 * k + 9)
+        order = list(range(n))
+        rng.shuffle(order)
+        add(41, "enum E : 8 { %s }\n" % ", ".join("R%d = %d..%d" % (k, rngs[k][0], rngs[k][1]) for k in order))
+    add(41, "enum E : 8 { LOW = 0..10, HIGH = 20..30, MID = 5..15 }\n")
+    add(41, "enum E : 8 { MID = 5..15, HIGH = 20..30, LOW = 0..10 }\n")
     out.append(("enum E : 8 { A = 1..5, B = 6..9 }\npacket P { e: E }\n", None))
     add(43, "enum E : 8 { A = 1..5, B = 3 }\n")
     add(43, "enum E : 8 { B = 5, A = 1..5 }\n")
